@@ -95,7 +95,7 @@ def generate(ctx):
         # the longest strings outside the judged shapes get one context instead of three
         scripts.append('%s,"cm":0,"lite":%s}' % (v[:-1], "true" if x and n == maxlen else "false"))
         if 0 < n <= 4:            # the same string with other runes for blank / multi-byte / letter / digit
-            cm = 1 + (sum(int(c) for c in s.split(",")) + n + ctx.seed) % 3
+            cm = 1 + (sum(int(c) for c in s.split(",")) + n + ctx.seed) % 6
             scripts.append('%s,"cm":%d,"lite":false}' % (v[:-1], cm))
     scripts.extend(longs)
     scripts.extend(trees)
